@@ -36,7 +36,9 @@ type authID struct {
 	key  crypto.Signer
 }
 
-func (a authID) tls() Certificate { return Certificate{Certificate: [][]byte{a.der}, PrivateKey: a.key} }
+func (a authID) tls() Certificate {
+	return Certificate{Certificate: [][]byte{a.der}, PrivateKey: a.key}
+}
 
 // mutator changes the payload of the n-th record travelling in one direction (headers are left alone)
 type mutator struct {
@@ -236,15 +238,17 @@ func TestGvcBoundedAuth(t *testing.T) {
 	serverCfg := func(sig, enc Certificate) *Config {
 		return &Config{GMSupport: NewGMSupport(), Certificates: []Certificate{sig, enc}}
 	}
-	withKey := func(a authID, k crypto.Signer) Certificate { return Certificate{Certificate: [][]byte{a.der}, PrivateKey: k} }
+	withKey := func(a authID, k crypto.Signer) Certificate {
+		return Certificate{Certificate: [][]byte{a.der}, PrivateKey: k}
+	}
 
 	type scen struct {
-		id               string
-		c                *Config
-		s                *Config
-		wantBoth         bool // both complete and data flows
-		clientMustNot    bool
-		serverMustNot    bool
+		id            string
+		c             *Config
+		s             *Config
+		wantBoth      bool // both complete and data flows
+		clientMustNot bool
+		serverMustNot bool
 	}
 	mutual := func(c *Config, auth ...Certificate) *Config { c.Certificates = auth; return c }
 	needClient := func(s *Config) *Config { s.ClientAuth = RequireAndVerifyClientCert; s.ClientCAs = roots; return s }
